@@ -46,7 +46,12 @@ impl<'c> Slice<'c> {
         let block = read_block_as(&mut src, ContentType::CoreData)?;
         let core_data_src = block.decode()?;
 
-        let external_data_block_count = self.header.block_count() - 1;
+        // The block count includes the core data block.
+        let external_data_block_count = self
+            .header
+            .block_count()
+            .checked_sub(1)
+            .ok_or_else(|| io::Error::new(io::ErrorKind::InvalidData, "invalid block count"))?;
         let external_data_srcs = (0..external_data_block_count)
             .map(|_| {
                 let block = read_block_as(&mut src, ContentType::ExternalData)?;
@@ -429,12 +434,22 @@ fn get_record_reference_sequence<'c>(
         .reference_sequence(header)
         .transpose()?
         .map(|(name, _)| name)
-        .expect("invalid reference sequence ID");
+        .ok_or_else(|| {
+            io::Error::new(
+                io::ErrorKind::InvalidData,
+                "invalid reference sequence ID",
+            )
+        })?;
 
     let sequence = reference_sequence_repository
         .get(reference_sequence_name)
         .transpose()?
-        .expect("invalid reference sequence name");
+        .ok_or_else(|| {
+            io::Error::new(
+                io::ErrorKind::InvalidInput,
+                format!("missing reference sequence: {reference_sequence_name}"),
+            )
+        })?;
 
     Ok(Some(ReferenceSequence::External { sequence }))
 }
